@@ -513,9 +513,9 @@ Definition chk_model (k : CaseT) : bool := let '(c, s, o) := k in obs_eqb (summa
 # ---- independent reading of a suite's meaning (from its registered name) -------------------------
 def suite_meaning(suite):
     """(kx settings name or None for TLS 1.3, cipher settings name, mac settings name) parsed from the
-    IETF name of the constant -- deliberately not using CipherSuite's classification lists."""
-    from tlslite.constants import CipherSuite
-    name = CipherSuite.ietfNames[suite]
+    IANA registry row (harness/c03_iana.py, a static table) -- not from any table of the library."""
+    from c03_iana import IANA
+    name = IANA[suite].replace('_anon_', '_ANON_')
     if '_WITH_' in name:
         kx, rest = name[4:].split('_WITH_')
     else:
@@ -617,12 +617,11 @@ def property_oracle(case, obs, cval, sval, resumed=None):
              ('etm_rl', 'etm_rl'), ('ems_conn', 'ems_conn'), ('alpn', 'alpn'), ('npn', 'npn'), ('sni', 'sni'),
              ('send', 'recv'), ('recv', 'send'), ('schain', 'schain'), ('cchain', 'cchain')]
     v = c['version'][1]
-    from tlslite.constants import CipherSuite as _CS
     for a, b in pairs:
         if c[a] != s[b]:
             tag = 'v%d' % v
             if a == 'schain':
-                tag = 'dhe_dsa' if c['suite'] in _CS.dheDsaSuites else ('psk' if c['schain'] is None else tag)
+                tag = 'dhe_dsa' if suite_meaning(c['suite'])[0] == 'dhe_dsa' else ('psk' if c['schain'] is None else tag)
             if a == 'cchain':
                 tag = 'tls13-not-requested' if (v >= 4 and not case['server'].get('req_cert')) else tag
             bad.append(('views-differ:%s:%s' % (a, tag), 'client %s=%r but server %s=%r' % (a, c[a], b, s[b])))
@@ -658,6 +657,13 @@ def property_oracle(case, obs, cval, sval, resumed=None):
                 bad.append(('policy:%s:group:%s:v%d' % (side, g, v), '%s: group %s not in eccCurves/dhGroups %r' % (side, g, allowed)))
         if c['sig'] is not None and not sig_in_policy(c['sig'], st):
             bad.append(('policy:%s:sigscheme:%r:v%d' % (side, tuple(c['sig']), v), '%s: signature scheme %r outside its configured schemes' % (side, c['sig'])))
+    # a side that requires a protection must not complete without it
+    if v <= 3:
+        for side, st, view in (('client', cval, c), ('server', sval, s)):
+            if st.requireExtendedMasterSecret and not (view['ems'] and view['ems_conn']):
+                bad.append(('policy:%s:ems-required:v%d' % (side, v),
+                            '%s has requireExtendedMasterSecret=True but the handshake completed in %r without the '
+                            'extended master secret (session %r, connection %r)' % (side, ver, view['ems'], view['ems_conn'])))
     # TLS 1.3 PSK key-exchange mode (psk_ke / psk_dhe_ke) inside both sides' psk_modes
     if v >= 4 and c['schain'] is None:        # no server certificate in TLS 1.3: a PSK was selected
         mode = 'psk_ke' if c['curve'] is None else 'psk_dhe_ke'
@@ -957,7 +963,93 @@ def boundary_key_cases():
     return out
 
 
-def fixed_cases():
+KX_SETUP = {'rsa': {'s_cert': 'rsa'}, 'dhe_rsa': {'s_cert': 'rsa'}, 'ecdhe_rsa': {'s_cert': 'rsa'},
+            'ecdhe_ecdsa': {'s_cert': 'ecdsa'}, 'dhe_dsa': {'s_cert': 'dsa'}, 'srp_sha': {'flavour': 'srp', 's_srp': [0]},
+            'srp_sha_rsa': {'flavour': 'srp', 's_srp': [0], 's_cert': 'rsa'}, 'dh_anon': {'flavour': 'anon', 's_anon': True},
+            'ecdh_anon': {'flavour': 'anon', 's_anon': True}}
+
+
+def policy_lattice_cases(quick=True):
+    """Directed pairs for the "within both policies" half of the property, per settings dimension:
+    (a) single value: one side allows exactly one value of the dimension, the other side is default -- both
+        roles, TLS 1.2 and TLS 1.3, with the credential that key exchange / signature family needs;
+    (b) partial overlap: one side allows [x, y], the other [y, z] -- the handshake must land on y or fail;
+    (c) MAC class x cipher: each single MAC class against each CBC/stream cipher (the classification of a
+        suite's MAC is decided per (cipher, MAC) in _filterSuites);
+    (d) requireExtendedMasterSecret on client / server / both x every protocol version (SSLv3 ... TLS 1.3) x
+        the other side with and without useExtendedMasterSecret.
+    quick keeps macNames / cipherNames / keyExchangeNames / require*, the thorough tier sweeps every dimension."""
+    from tlslite import handshakesettings as hs
+    D = default_settings_dict
+    out = []
+    tls12 = {'maxVersion': [3, 3], 'versions': [[3, 3], [3, 2], [3, 1]]}
+
+    def add(tag, cmod, smod, **kw):
+        c = {'settings': D(), 'flavour': kw.pop('flavour', 'cert')}
+        s = {'settings': D()}
+        c['settings'].update(cmod)
+        s['settings'].update(smod)
+        for k, v in kw.items():
+            side, key = k.split('_', 1)
+            (c if side == 'c' else s)[key] = v
+        out.append({'id': 'pol-%s-%d' % (tag, len(out)), 'client': c, 'server': s})
+
+    def both_roles(tag, dim, vals, other=None, vers=('tls12', 'tls13'), setup=None, extra=None):
+        for vname in vers:
+            vmod = tls12 if vname == 'tls12' else {}
+            for role in ('c', 's'):
+                a = dict(vmod, **{dim: list(vals)}) if role == 'c' else {dim: list(vals)}
+                b = ({dim: list(other)} if other is not None else {})
+                if role == 's':
+                    b = dict(vmod, **b)
+                a.update(extra or {})
+                cm, sm = (a, b) if role == 'c' else (b, a)
+                add('%s-%s-%s-%s' % (dim, '+'.join(vals), role, vname), cm, sm, **(setup or {'s_cert': 'rsa'}))
+    dims = [('macNames', hs.ALL_MAC_NAMES, None), ('cipherNames', hs.ALL_CIPHER_NAMES, None)]
+    if not quick:
+        dims += [('eccCurves', hs.CURVE_NAMES, None), ('dhGroups', ['ffdhe2048', 'ffdhe3072'], None),
+                 ('rsaSigHashes', hs.ALL_RSA_SIGNATURE_HASHES, None), ('rsaSchemes', hs.RSA_SCHEMES, None),
+                 ('ecdsaSigHashes', hs.ECDSA_SIGNATURE_HASHES, {'s_cert': 'ecdsa', 's_req_cert': True, 'c_cert': 'client-ecdsa'}),
+                 ('dsaSigHashes', hs.DSA_SIGNATURE_HASHES, {'s_cert': 'dsa', 's_req_cert': True, 'c_cert': 'client-dsa'}),
+                 ('more_sig_schemes', hs.SIGNATURE_SCHEMES, {'s_cert': 'ed25519', 's_req_cert': True, 'c_cert': 'client-ed25519'})]
+    for dim, allv, setup in dims:
+        allv = list(allv)
+        for x in allv:                                        # (a)
+            both_roles('one', dim, [x], setup=setup)
+        n = len(allv)
+        for i in range(n if not quick else min(n, 5)):        # (b) [x, y] against [y, z]
+            x, y, z = allv[i], allv[(i + 1) % n], allv[(i + 2) % n]
+            if len({x, y, z}) == 3:
+                both_roles('part', dim, [x, y], other=[z, y], setup=setup, vers=('tls12',) if quick else ('tls12', 'tls13'))
+    for kx in hs.KEY_EXCHANGE_NAMES:                          # (a) for key exchanges, each with its credential
+        both_roles('one', 'keyExchangeNames', [kx], setup=KX_SETUP[kx], vers=('tls12',))
+    kxs = list(hs.KEY_EXCHANGE_NAMES)
+    for i in range(len(kxs)):
+        y, z = kxs[i], kxs[(i + 1) % len(kxs)]
+        x = kxs[(i + 2) % len(kxs)]
+        both_roles('part', 'keyExchangeNames', [x, y], other=[z, y], setup=KX_SETUP[y], vers=('tls12',))
+    # (c) single MAC class x single cipher, the server certificate that lets ECDHE / DHE / RSA suites all apply
+    cbc = [c for c in hs.ALL_CIPHER_NAMES if c in ('aes256', 'aes128', '3des', 'rc4', 'null')]
+    for mac in hs.ALL_MAC_NAMES:
+        for ci in (cbc if not quick else ['aes256', 'aes128']):
+            both_roles('macxcipher-' + ci, 'macNames', [mac], extra={'cipherNames': [ci]}, vers=('tls12',))
+            if not quick:
+                both_roles('macxcipher-ecdsa-' + ci, 'macNames', [mac], extra={'cipherNames': [ci]}, vers=('tls12',),
+                           setup={'s_cert': 'ecdsa'})
+    # (d) require* x every version
+    for who in ('c', 's', 'cs'):
+        for v in range(5):
+            for other_use in (True, False):
+                pin = {'minVersion': [3, v], 'maxVersion': [3, v], 'versions': [[3, v]]}
+                req = {'useExtendedMasterSecret': True, 'requireExtendedMasterSecret': True}
+                oth = {'useExtendedMasterSecret': other_use, 'requireExtendedMasterSecret': False}
+                cm = dict(pin, **(req if 'c' in who else oth))
+                sm = dict(pin, **(req if 's' in who else oth))
+                add('require-ems-%s-v%d-%s' % (who, v, 'use' if other_use else 'nouse'), cm, sm, s_cert='rsa')
+    return out
+
+
+def fixed_cases(quick=True):
     """Boundary cases kept from earlier disagreements / findings; always run first."""
     D = default_settings_dict
     out = []
@@ -1023,8 +1115,11 @@ def fixed_cases():
             for scert in (None, 'rsa'):
                 kw = {'s_cert': scert} if scert else {}
                 case(cmod={'psks': [(0, None)], 'psk_modes': cm}, smod={'psks': [(0, None)], 'psk_modes': sm}, **kw)
+    # finding C03-7: brainpool certificate in TLS 1.3, the server's more_sig_schemes exclude the brainpool schemes
+    case(smod={'more_sig_schemes': ['Ed25519']}, s_cert='bp256')
+    case(cmod={'more_sig_schemes': ['Ed25519']}, smod={'more_sig_schemes': ['Ed25519']}, s_cert='bp256')
     out += resume_cases()
-    return out + boundary_key_cases() + boundary_version_cases() + value_sweep_cases()
+    return out + boundary_key_cases() + boundary_version_cases() + value_sweep_cases() + policy_lattice_cases(quick)
 
 
 def resume_cases():
